@@ -21,7 +21,8 @@ EXTENDS Naturals, Sequences, FiniteSets, TLC, Json, IOUtils
 
 CONSTANTS MaxN,        \* enumeration bound on the number of nodes
           Source,      \* "enum" | "file"
-          Modes        \* subset of {"walk", "walkabout"} for the enumeration
+          Modes,       \* subset of {"walk", "walkabout"} for the enumeration
+          Histories    \* subset of {"fresh", "rewalk"}
 
 PruneKinds == {"none", "SkipChildren", "SkipSiblings", "SkipNode", "SkipDeparture"}
 ExtIds == {"B", "B2", "A", "I", "O"}
@@ -31,8 +32,8 @@ RegOrder == <<"B", "B2", "A", "I", "O">>    \* registration order inside one `wh
 \* configurations recorded from the real code: [n, parent (seq), prune (seq), exts (seq), mode]
 FileCfgs == IF Source = "file" THEN JsonDeserialize(IOEnv.CFG_FILE) ELSE <<>>
 
-VARIABLES cid, n, parent, prune, exts, mode, stack, exc, events, status
-vars == <<cid, n, parent, prune, exts, mode, stack, exc, events, status>>
+VARIABLES cid, n, parent, prune, exts, mode, hist, stack, exc, events, status
+vars == <<cid, n, parent, prune, exts, mode, hist, stack, exc, events, status>>
 
 Sel(t) == SelectSeq(RegOrder, LAMBDA e : e \in exts /\ When(e) = t)
 PreV  == Sel("BEFORE") \o Sel("OUTTER")     \* Visitor.visit : before_visit + outter_visit
@@ -52,6 +53,10 @@ InitEnum == /\ Source = "enum" /\ cid = 0
             /\ exts \in SUBSET ExtIds
             /\ ("B2" \in exts => "B" \in exts)
             /\ mode \in Modes
+            \* the history of the visitor object before this walk: "fresh", or "rewalk" = it has already walked a tree
+            \* while it had no extension at all, and the extensions were added afterwards (ExtList.add).  The contract
+            \* speaks of the extensions registered NOW: nothing below depends on hist (frame condition).
+            /\ hist \in Histories
 InitFile == /\ Source = "file"
             /\ cid \in 1..Len(FileCfgs)
             /\ n = FileCfgs[cid].n
@@ -59,6 +64,7 @@ InitFile == /\ Source = "file"
             /\ prune = FileCfgs[cid].prune
             /\ exts = {FileCfgs[cid].exts[i] : i \in 1..Len(FileCfgs[cid].exts)}
             /\ mode = FileCfgs[cid].mode
+            /\ hist = "fresh"
 Init == /\ (InitEnum \/ InitFile)
         /\ stack = <<Frame(1)>>
         /\ exc = "none"
@@ -144,7 +150,7 @@ Finish == /\ status = "running" /\ exc = "none" /\ Len(stack) = 0
 
 Next == /\ (VisitPre \/ VisitMain \/ VisitPostExt \/ RaiseAbout \/ RaiseWalk \/ KidsStep \/ CatchSiblings
             \/ SwallowAtRoot \/ DepartPre \/ DepartMain \/ DepartPost \/ Finish)
-        /\ UNCHANGED <<cid, n, parent, prune, exts, mode>>
+        /\ UNCHANGED <<cid, n, parent, prune, exts, mode, hist>>
 Spec == Init /\ [][Next]_vars
 
 \* ------------------------------------------------------------------ the contract (property C19)
@@ -201,7 +207,7 @@ Contract == /\ EnteredAtMostOnce /\ NoEscape /\ ExtBalanced /\ MainBalanced /\ W
             /\ WellNested /\ DocumentedOrder /\ SameNodesForAll /\ PruningMeans
 
 \* ------------------------------------------------------------------ emission (spec -> code)
-Cfg == [cid |-> cid, n |-> n, parent |-> parent, prune |-> prune, mode |-> mode,
+Cfg == [cid |-> cid, n |-> n, parent |-> parent, prune |-> prune, mode |-> mode, hist |-> hist,
         exts |-> Sel("BEFORE") \o Sel("AFTER") \o Sel("INNER") \o Sel("OUTTER")]
 EmitTerminal == Terminal => PrintT(ToJson([cfg |-> Cfg, status |-> status, events |-> events, contract |-> Contract]))
 =============================================================================
